@@ -109,6 +109,35 @@ def run_gen():
     return rep
 
 
+# link tables (hand-written Lean standing for Python called by name) and the modules that PROVE their entries equal to the translated
+# source: a property whose theorems go through a link table depends on those proofs too, whether or not it cites them (round 8: an edit of
+# normalise_relative broke RelTie2 only, and C10 — Bar.__init__ calls normalise through the wrapper link — did not notice)
+LINK_PROOFS = {
+    "SCoda.Model.ViewLib": ["SCoda.Props.ViewTie", "SCoda.Props.RelTie2", "SCoda.Props.AbsTie2", "SCoda.Props.SortTie"],
+    "SCoda.Model.ElemLib": ["SCoda.Props.ElemTie", "SCoda.Props.StaticTie", "SCoda.Props.StaticLink", "SCoda.Props.WrapTie"],
+    "SCoda.Model.StaticLib": ["SCoda.Props.StaticLink", "SCoda.Props.ViewTie", "SCoda.Props.WrapTie"],
+    "SCoda.Model.TokLib": ["SCoda.Props.UtilTie", "SCoda.Props.AbsTie2", "SCoda.Props.RelTie2", "SCoda.Props.ViewTie", "SCoda.Props.SortTie"],
+    "SCoda.Model.Wrapper": ["SCoda.Props.WrapTie"],
+    "SCoda.Model.HeapLib": ["SCoda.Props.HeapTie", "SCoda.Props.HeapTie2"],
+}
+
+
+def link_proof_modules(modules):
+    """the tie modules that discharge the link tables the given modules import (transitively), beyond the given ones"""
+    out, todo, seen = [], list(modules), set()
+    while todo:
+        clo = import_closure(todo, extra_files=())
+        todo = []
+        for table, proofs in LINK_PROOFS.items():
+            if table in clo and table not in seen:
+                seen.add(table)
+                for m in proofs:
+                    if m not in modules and m not in out and os.path.exists(os.path.join(LEAN_DIR, *m.split(".")) + ".lean"):
+                        out.append(m)
+                        todo.append(m)
+    return out
+
+
 def import_closure(modules, extra_files=("Driver.lean",)):
     """all SCoda.* modules the given modules (and the driver) import, transitively — what a property's check depends on"""
     seen = set()
